@@ -20,7 +20,9 @@ def main(tier: str) -> int:
         for lang in ("c", "cpp"):
             conds.append(Cond(M, "referenced_paths_are_generated_paths", 600, 120, dict(C11_LANG=lang, C11_OUT="/out")))
             for root in ("r", "register" if lang != "py" else "str"):
+                # every single type; and every pair whose first type lives in the namespace with the reserved-word component
                 conds.append(Cond(M, "generated_is_referenced_without_stropping", 900, 120, dict(C11_LANG=lang, C11_ROOT=root, C11_OUT="/out")))
+                conds.append(Cond(M, "generated_is_referenced_without_stropping", 900, 120, dict(C11_LANG=lang, C11_ROOT=root, C11_OUT="/out", C11_FIRST="8")))
         rep.bounds = dict(extension_overrides="none, .h, .gen.h, .a.b.c, .hpp for the real types of /verif/data/ns1 (include paths of vt.B vs generated paths)",
                           types="<= 2 per tree", namespaces="R, R.a.b, R.<reserved word>, R.ab (prefix-named sibling of R.a); for the types of R.a.b and R.ab the children of a namespace are enumerated in both orders", names="A, A_1", versions="0.0, 1.0",
                           configurations="(c, root r, /out), (c, root register, relative out), (py, root str, trailing slash)")
